@@ -4,6 +4,8 @@ CONSTANTS
   Containers = {1, 2, 3}
   Nums = {4, 5}
   DevFirstWins = FALSE
+  DeferU = {}
+  DevStopAtFirstFailure = FALSE
   DropU = {1, 2, 4, 5}
   Emit = FALSE
 INVARIANTS Deterministic LatestWins FilterRestricts
